@@ -243,6 +243,9 @@ func FromTensor(t tensor.Tensor) (*ref.T, error) {
 		}
 	}
 	out := ref.New(dt, shape...)
+	if len(out.Bits) == 0 {
+		return out, nil // zero-element tensor: nothing to read (gorgonia's Data() cannot be called on it)
+	}
 	data := t.Data()
 	if reflect.ValueOf(data).Kind() != reflect.Slice {
 		if len(out.Bits) != 1 {
@@ -323,6 +326,9 @@ func Fp(t tensor.Tensor) Fingerprint {
 		f.Err = err.Error()
 	} else {
 		f.Hash = HashBits(v.Bits)
+	}
+	if ref.NumElems(f.Shape) == 0 {
+		return f
 	}
 	data := t.Data()
 	rv := reflect.ValueOf(data)
